@@ -2,10 +2,12 @@
 
 import itertools
 import random
+import re
 
 from nmverif.checks import _editbase as B
 from nmverif.engines import edit as E
 from nmverif.oracle import attrtree as A
+from nmverif.oracle import cst
 from nmverif.oracle import editmodel as M
 from nmverif.worker import wal
 
@@ -210,6 +212,7 @@ def plan(tier, seed):
         shards.append({"kind": "pairs", "part": p, "parts": 6})
     shards.append({"kind": "malformed"})
     shards.append({"kind": "equivalence"})
+    shards.append({"kind": "inherited"})
     n_rand = 16 if tier == "quick" else 64
     for i in range(n_rand):
         shards.append({"kind": "random", "seed": seed * 7727 + i * 611953 + 1,
@@ -282,6 +285,41 @@ def run_shard(spec):
             equivalence(name, res, obs)
             res["evaluations"] += 1
             nontriv.add(B.h64("eq\0" + name))
+    elif kind == "inherited":
+        # a name that an `inherit` clause defines, addressed in every spelling: the edit is refused
+        # or replaces the definition - never a second definition next to the clause
+        for name in ["a", "foo-bar", "a b", "x'", "1x", "q_r", "\u00e9", "a.b", "with"]:
+            clause_name = name if M.BARE_RE.match(name) and name not in KEYWORDS else '"' + name + '"'
+            for src_part in ("", "(src) "):
+                for ctx, doc in (("body", "{\n  inherit %s%s;\n  keep = 1;\n}\n"),
+                                 ("nested", "{\n  m = {\n    inherit %s%s;\n  };\n}\n"),
+                                 ("let", "let\n  inherit %s%s;\nin\n{\n  keep = 1;\n}\n")):
+                    text = doc % (src_part, clause_name)
+                    if cst.has_error(text):
+                        continue
+                    spellings = {'"' + name.replace('"', '\\"') + '"'}
+                    if M.BARE_RE.match(name):
+                        spellings.add(name)
+                    for sp in sorted(spellings):
+                        path = {"body": sp, "nested": "m." + sp, "let": "@" + sp}[ctx]
+                        wal("inherited " + repr(path))
+                        r = E.fresh_apply(text, E.Op("set", path, "2"))
+                        res["evaluations"] += 1
+                        obs["inherited"] = obs.get("inherited", 0) + 1
+                        nontriv.add(B.h64("inh\0" + text + path))
+                        key0 = {"class": charclass(name), "context": "inherited:" + ctx, "op": "set",
+                                "spelling": "quoted" if sp.startswith('"') else "bare",
+                                "from": "source" if src_part else "scope"}
+                        if r.exc_type is not None:
+                            if not E.is_documented(r):
+                                B.record(res, {**key0, "effect": "undocumented-exception", "exc": r.exc_type},
+                                         {"doc": text, "path": path}, r.exc_msg)
+                            continue
+                        n_inherit = r.out.count("inherit")
+                        defs = len(re.findall(r"(?m)^\s*" + re.escape(clause_name) + r"\s*=", r.out))
+                        if n_inherit and defs:
+                            B.record(res, {**key0, "effect": "duplicate-definition"},
+                                     {"doc": text, "path": path}, repr(r.out))
     elif kind == "random":
         rng = random.Random(spec["seed"])
         alphabet = SINGLES + HAZARD + list("abcxyz019")
